@@ -23,8 +23,10 @@ def err_exact(a, b) -> float:
     return float(np.max(np.abs(a - b)) / max(1.0, float(np.max(np.abs(b)))))
 
 
-def defect(a, b, scale_floor: float = 0.0) -> float:
-    """Trace-normalised defect: max|a-b| / max(||b||inf, 1e-3*S)."""
+def defect(a, b, scale_floor: float = 0.0, frac: float = 1e-2) -> float:
+    """Trace-normalised defect: max|a-b| / max(||b||inf, frac*S), S = largest magnitude in the trace.
+    (frac=1e-2: a block that is structurally zero carries float32 noise ~1e-7*S, which a floor of
+    1e-3*S turned into a spurious 1e-4 'defect' on the unchanged tree.)"""
     a = np.asarray(a, dtype=np.float64)
     b = np.asarray(b, dtype=np.float64)
     if a.shape != b.shape:
@@ -33,7 +35,7 @@ def defect(a, b, scale_floor: float = 0.0) -> float:
         return 0.0
     if not np.all(np.isfinite(a)) or not np.all(np.isfinite(b)):
         return float("inf")
-    den = max(float(np.max(np.abs(b))), 1e-3 * scale_floor, 1e-30)
+    den = max(float(np.max(np.abs(b))), frac * scale_floor, 1e-30)
     return float(np.max(np.abs(a - b)) / den)
 
 
